@@ -139,10 +139,19 @@ REG.assume_note("generators (step extraction): between two steps the environment
 
 
 def _snap(name="raw", ghost="raw0", via=None):
-    """ghost snapshot of a buffer at the start of the step (a list object the code never sees)"""
+    """ghost snapshot of a buffer at the start of the step: a pre-state list object the code cannot reach (distinct
+    from the buffer; fresh objects have negative ids), with the buffer's length and contents.  No heap write is
+    needed, which keeps the terms small."""
     def setup(E):
         lv = via(E) if via else E.frame.env[name]
-        E.frame.env[ghost] = E.new_list(lv.et, E.llen(lv), E.larrs(lv))
+        g = E.fresh("g_" + ghost, z3.IntSort())
+        E.assume(g > 0)
+        E.assume(g != lv.t)
+        gl = ListV(g, lv.et)
+        E.assume(E.llen(gl) == E.llen(lv))
+        for x, y in zip(E.larrs(gl), E.larrs(lv)):
+            E.assume(x == y)
+        E.frame.env[ghost] = gl
     return setup
 
 
@@ -219,7 +228,7 @@ LINE_RAISES = {"LineTooLong": ["seq_eq(raw, raw0)", "len(raw0) > MAX_LINE_SIZE",
                                "no_eol_in(raw0, 0, MAX_LINE_SIZE + 1, len(raw0), eols)"]}
 EOLS_POOL = [(b"\r\n", b"\n", b"\r")]
 
-contract(F, "parseLine", "C33,C29", tags=("step2", "emits"), params=dict(raw=BA), setup=_snap(),
+contract(F, "parseLine", "C33,C29", tags=("step2", "emits", "logic=AUFLIA"), params=dict(raw=BA), setup=_snap(),
          cases=[{}, {"eols": ("const", (b"\r\n", b"\n"))}, {"eols": ("const", (b"\r\n",))}],
          modifies=["raw[*]"], ensures=LINE_ENSURES, raises=LINE_RAISES, returns=Opt(BA),
          replay=dict(make=_mk_line(EOLS_POOL), call=_call_line, view=_view, count=400),
@@ -230,7 +239,7 @@ contract(F, "parseLine", "C33,C29", tags=("step2", "emits"), params=dict(raw=BA)
 # already contained a mark, the step on the whole buffer yields the line and consumes the bytes that the statement
 # prescribes for raw0[:n0] alone - whatever follows.
 STABLE = "has_eol(raw0, n0, eols)"
-contract(F, "parseLine", "C33,C29", tags=("step2",), params=dict(raw=BA, n0=INT), setup=_snap(),
+contract(F, "parseLine", "C33,C29", tags=("step2", "logic=AUFLIA"), params=dict(raw=BA, n0=INT), setup=_snap(),
          cases=[{}, {"eols": ("const", (b"\r\n", b"\n"))}, {"eols": ("const", (b"\r\n",))}],
          requires=["0 <= n0 and n0 <= len(raw)"], modifies=["raw[*]"],
          ensures=[
